@@ -51,6 +51,7 @@ def spec_key_type(k):
 
 @contract("ahbicht.condition_node_distinction:derive_condition_node_type", prop=["C18"])
 class DeriveType:
+    runtime_checkable = True
     params = dict(condition_key=KeyStr())
     raises = {"ValueError": "raises_out_of_range"}
 
